@@ -112,10 +112,20 @@ func hasBigInt(code string) bool {
 	return false
 }
 
-func judge(c Case) vdrv.Verdict { return judgeDepth(c, 0) }
+func judge(c Case) vdrv.Verdict {
+	v, _ := judgeInner(c, 0)
+	return v
+}
 
-// judgeDepth: depth > 0 marks the recursive judgement of a rewritten input (see classify in known_test.go).
-func judgeDepth(c Case, depth int) vdrv.Verdict {
+// judgeInner: depth > 0 marks the recursive judgement of a rewritten input (see classify in
+// known_test.go). confirmed: v.Known was established by output repairs / input rewrites that end in a
+// correct program (and not by one of the older static signatures).
+func judgeInner(c Case, depth int) (v vdrv.Verdict, confirmed bool) {
+	v = judgeDepth(c, depth, &confirmed)
+	return
+}
+
+func judgeDepth(c Case, depth int, confirmed *bool) vdrv.Verdict {
 	if c.lowers("async-await", 2017) && (!c.lowers("for-await", 2018) || !c.lowers("async-generator", 2018)) {
 		// `supported: {for-await: true}` on a target without async functions describes no engine: esbuild keeps
 		// `for await` / `async function*` as told and turns the enclosing async function into a generator
@@ -184,6 +194,7 @@ func judgeDepth(c Case, depth int) vdrv.Verdict {
 	// signatures after them
 	if id := classify(c, out, ref.Trace(), got.Trace(), depth); id != "" {
 		v.Known = id
+		*confirmed = true
 		return v
 	}
 	switch {
